@@ -706,4 +706,235 @@ theorem events_amount_sign (p : Pair) (hk : p.kind = .publicTrades) (k : Nat) (m
 example : (tradeOf .gateioPerpetualsUsd ⟨100, -2, .buy, 5⟩).amount? = some (-2) ∧
     (tradeOf .bitfinex ⟨100, -2, .buy, 5⟩).amount? = some 2 := by decide
 
+/-! ## The un-keyed representation (oracle audit C13-H1)
+
+`Subscription<_, MarketDataInstrument, _>` — the FIRST `Identifier<Market>` impl of every connector, the
+instrument type of the README examples. The market is formatted like the keyed one; the instrument key
+is the stored instrument itself (`Inst.canon`: base / quote lower-cased by `AssetNameInternal`), so the
+map is a `Map<MarketDataInstrument>` (`UMap`, `mapOfU`) and events carry instruments (`transformU`).
+The theorems tie this path to the positional model the theorems above are about: same subscription
+ids, and looking an id up in the un-keyed map is looking it up in the positional map and reading the
+instrument at that position (`UKeyed`), through subscription, Bitfinex confirmations and `transform`. -/
+
+theorem lowc_lowc (c : Char) : lowc (lowc c) = lowc c := by
+  unfold lowc
+  by_cases h : 65 ≤ c.toNat ∧ c.toNat ≤ 90
+  · have h1 : c.toNat + 32 < 55296 := by omega
+    have h2 : ¬ (65 ≤ c.toNat + 32 ∧ c.toNat + 32 ≤ 90) := by omega
+    rw [if_pos h, toNat_ofNat_small _ h1, if_neg h2]
+  · rw [if_neg h, if_neg h]
+
+theorem lower_lower (s : Str) : lower (lower s) = lower s := by
+  simp [lower, List.map_map, Function.comp_def, lowc_lowc]
+
+/-- Storing the instrument (lower-casing base and quote) changes nothing the formatters read: the
+stored instrument has the same market, for every connector, … -/
+theorem canon_same_market (e : Exch) (i : Inst) : market e i.canon = market e i := by
+  cases e <;>
+    simp [market, concatMarket, bitfinexMarket, coinbaseMarket, krakenMarket, okxMarket, gateioMarket,
+      Inst.canon, Inst.b, Inst.q, lower_lower]
+
+/-- … hence the same subscription id: **the un-keyed path subscribes under exactly the ids of the
+keyed path** (`marketR` / `mapOfR` on `.formatted i`). -/
+theorem unkeyed_same_id (p : Pair) (i : Inst) :
+    subscriptionId p i.canon = subscriptionId p i ∧
+    subscriptionId p i.canon = subscriptionIdR p (.formatted i) := by
+  have h : subscriptionId p i.canon = subscriptionId p i := by
+    have hk : i.canon.kind = i.kind := rfl
+    simp only [subscriptionId, canon_same_market, hk]
+  exact ⟨h, h⟩
+
+theorem canon_canon (i : Inst) : i.canon.canon = i.canon := by
+  simp [Inst.canon, lower_lower]
+
+theorem ufind_insert_self (m : UMap) (id : Str) (k : Inst) : (m.insert id k).find id = some k := by
+  induction m with
+  | nil => simp [UMap.insert, UMap.find]
+  | cons e rest ih =>
+    obtain ⟨i, k'⟩ := e
+    by_cases h : i = id <;> simp [UMap.insert, UMap.find, h, ih]
+
+theorem ufind_insert_ne (m : UMap) (id id' : Str) (k : Inst) (h : id' ≠ id) :
+    (m.insert id k).find id' = m.find id' := by
+  induction m with
+  | nil => simp [UMap.insert, UMap.find, Ne.symm h]
+  | cons e rest ih =>
+    obtain ⟨i, k'⟩ := e
+    by_cases h1 : i = id
+    · subst h1; simp [UMap.insert, UMap.find, Ne.symm h]
+    · by_cases h2 : i = id'
+      · subst h2; simp [UMap.insert, UMap.find, h1]
+      · simp [UMap.insert, UMap.find, h1, h2, ih]
+
+theorem ufind_remove_self (m : UMap) (id : Str) : (m.remove id).find id = none := by
+  induction m with
+  | nil => simp [UMap.remove, UMap.find]
+  | cons e rest ih =>
+    obtain ⟨i, k'⟩ := e
+    by_cases h : i = id
+    · simpa [UMap.remove, List.filter, h] using ih
+    · simpa [UMap.remove, List.filter, h, UMap.find] using ih
+
+theorem ufind_remove_ne (m : UMap) (id id' : Str) (h : id' ≠ id) :
+    (m.remove id).find id' = m.find id' := by
+  induction m with
+  | nil => simp [UMap.remove, UMap.find]
+  | cons e rest ih =>
+    obtain ⟨i, k'⟩ := e
+    by_cases h1 : i = id
+    · subst h1
+      have : ¬ i = id' := fun e => h e.symm
+      simpa [UMap.remove, List.filter, UMap.find, this] using ih
+    · by_cases h2 : i = id'
+      · subst h2; simp [UMap.remove, List.filter, h1, UMap.find]
+      · simpa [UMap.remove, List.filter, h1, UMap.find, h2] using ih
+
+/-- the instrument key of position `k` of a subscription list -/
+def keyAt (subs : List Inst) (k : Nat) : Inst := (subs.getD k default).canon
+
+/-- The un-keyed map `mu` IS the positional map `m` read through the subscription list: every id
+finds the instrument stored at the position the positional map finds. -/
+def UKeyed (subs : List Inst) (mu : UMap) (m : IMap) : Prop :=
+  ∀ id, mu.find id = (m.find id).map (keyAt subs)
+
+theorem ukeyed_mapFrom (p : Pair) (pre rest : List Inst) (mu : UMap) (m : IMap)
+    (h : UKeyed (pre ++ rest) mu m) :
+    UKeyed (pre ++ rest) (mapFromU p mu rest) (mapFrom p pre.length m rest) := by
+  induction rest generalizing pre mu m with
+  | nil => simpa [mapFromU, mapFrom] using h
+  | cons i rest ih =>
+    simp only [mapFromU, mapFrom]
+    have hstep : UKeyed (pre ++ i :: rest) (mu.insert (subscriptionId p i.canon) i.canon)
+        (m.insert (subscriptionId p i) pre.length) := by
+      intro id
+      rw [(unkeyed_same_id p i).1]
+      by_cases hid : id = subscriptionId p i
+      · subst hid
+        rw [ufind_insert_self, find_insert_self]
+        simp [keyAt]
+      · rw [ufind_insert_ne _ _ _ _ hid, find_insert_ne _ _ _ _ hid]
+        exact h id
+    have := ih (pre ++ [i]) _ _ (by simpa using hstep)
+    simpa using this
+
+/-- **Subscription.** `WebSocketSubMapper::map` over un-keyed subscriptions builds the positional map
+of the keyed path with every position replaced by the instrument subscribed there (for every pair and
+every list, duplicates and colliding ids included: the last subscription of an id wins on both sides). -/
+theorem unkeyed_map_is_keyed_map (p : Pair) (subs : List Inst) :
+    UKeyed subs (mapOfU p subs) (mapOf p subs) := by
+  have := ukeyed_mapFrom p [] subs [] [] (by intro id; simp [UMap.find, IMap.find])
+  simpa [mapOfU, mapOf] using this
+
+/-- … in particular the two maps hold the same subscription ids. -/
+theorem unkeyed_map_same_ids (p : Pair) (subs : List Inst) (id : Str) :
+    ((mapOfU p subs).find id).isSome = ((mapOf p subs).find id).isSome := by
+  rw [unkeyed_map_is_keyed_map p subs id]; cases (mapOf p subs).find id <;> rfl
+
+/-- **Bitfinex confirmations** re-key both maps alike. -/
+theorem unkeyed_conf (subs : List Inst) (mu : UMap) (m : IMap) (h : UKeyed subs mu m)
+    (chan mkt : Str) (c : Nat) :
+    UKeyed subs (bitfinexSubscribedU mu chan mkt c) (bitfinexSubscribed m chan mkt c) := by
+  intro id
+  unfold bitfinexSubscribedU bitfinexSubscribed
+  rw [h (subId chan mkt)]
+  cases hf : m.find (subId chan mkt) with
+  | none => simpa using h id
+  | some k =>
+    simp only [Option.map_some]
+    by_cases h1 : id = Nat.toDigits 10 c
+    · subst h1; rw [ufind_insert_self, find_insert_self]; rfl
+    · rw [ufind_insert_ne _ _ _ _ h1, find_insert_ne _ _ _ _ h1]
+      by_cases h2 : id = subId chan mkt
+      · subst h2; rw [ufind_remove_self, find_remove_self]; rfl
+      · rw [ufind_remove_ne _ _ _ h2, find_remove_ne _ _ _ h2]; exact h id
+
+/-- the events built for a key differ only in the key -/
+theorem events_withKey (p : Pair) (k : Nat) (msg : Msg) (x : Inst) :
+    (events p k msg).map (·.withKey x) = (events p 0 msg).map (·.withKey x) := by
+  unfold events
+  cases p.kind <;> simp only
+  · split
+    · split <;> simp [Event.withKey]
+    · simp [List.map_map, Function.comp_def, Event.withKey]
+  · split <;> simp [Event.withKey]
+  · split <;> simp [Event.withKey]
+  · split <;> simp [Event.withKey]
+
+/-- the result of the positional `transform` with every event key replaced by the instrument
+subscribed at that position -/
+def relabel (subs : List Inst) : Out → OutU
+  | .events evs => .events (evs.map fun ev => ev.withKey (keyAt subs ev.key))
+  | .unidentifiable id => .unidentifiable id
+
+/-- **Transform.** On maps related by `UKeyed` (after subscription and any Bitfinex confirmations) the
+un-keyed transformer produces, for every message, exactly the positional result with the instrument in
+place of the position: same events, same rejection, same id. Everything proved about `transform`
+(`attributed`, `rejected`, `refines_spec`, the Bitfinex theorems, the field theorems) therefore holds
+for the un-keyed path with "key `k`" read as "the `k`-th subscribed instrument". -/
+theorem unkeyed_transform (p : Pair) (subs : List Inst) (mu : UMap) (m : IMap) (h : UKeyed subs mu m)
+    (msg : Msg) : transformU p mu msg = relabel subs (transform p m msg) := by
+  unfold transformU transform
+  cases payloadId p msg with
+  | none => simp [relabel]
+  | some id =>
+    simp only
+    rw [h id]
+    cases hf : m.find id with
+    | none => simp [relabel]
+    | some k =>
+      simp only [Option.map_some, relabel]
+      congr 1
+      rw [← events_withKey p k msg]
+      apply List.map_congr_left
+      intro ev hev
+      rw [(events_key_exchange p k msg ev hev).1]
+
+/-- `attributed`, un-keyed: a message for the market of the `k`-th subscribed instrument yields
+exactly the events of that payload, every one carrying THAT INSTRUMENT (as stored) as its key. -/
+theorem attributed_unkeyed (p : Pair) (hp : p ∈ supported) (hb : p.exch ≠ .bitfinex) (subs : List Inst)
+    (hd : (subs.map (subscriptionId p)).Nodup) (k : Nat) (i : Inst) (hk : subs[k]? = some i)
+    (msg : Msg) (hm : msg.market = market p.exch i) (hc : msg.chan = channel p i.kind)
+    (hne : p.exch.needsItem = true → msg.items ≠ []) :
+    transformU p (mapOfU p subs) msg = .events ((events p k msg).map (·.withKey i.canon)) := by
+  rw [unkeyed_transform p subs _ _ (unkeyed_map_is_keyed_map p subs),
+    attributed p hp hb subs hd k i hk msg hm hc hne]
+  simp only [relabel]
+  congr 1
+  apply List.map_congr_left
+  intro ev hev
+  rw [(events_key_exchange p k msg ev hev).1]
+  simp [keyAt, List.getD, hk]
+
+/-- `rejected`, un-keyed. -/
+theorem rejected_unkeyed (p : Pair) (hp : p ∈ supported) (hb : p.exch ≠ .bitfinex) (subs : List Inst)
+    (msg : Msg) (hbar : '|' ∉ msg.chan)
+    (hno : ∀ i ∈ subs, ¬ (market p.exch i = msg.market ∧ channel p i.kind = payloadChan p msg))
+    (hne : p.exch.needsItem = true → msg.items ≠ []) :
+    transformU p (mapOfU p subs) msg = .unidentifiable (subId (payloadChan p msg) msg.market) := by
+  rw [unkeyed_transform p subs _ _ (unkeyed_map_is_keyed_map p subs),
+    rejected p hp hb subs msg hbar hno hne]
+  rfl
+
+/-- Two spellings of one instrument are ONE key on the un-keyed path (positions 0 and 1 both read as
+`btc:usdt:spot`), so the attribution is determined although the positional key is not (`[k]` in the
+positional map is the last subscription, `1`). -/
+example :
+    let p : Pair := ⟨.binanceSpot, .publicTrades⟩
+    let subs : List Inst := [⟨"BTC".toList, "usdt".toList, .spot⟩, ⟨"btc".toList, "USDT".toList, .spot⟩]
+    (mapOfU p subs).find "@trade|BTCUSDT".toList = some ⟨"btc".toList, "usdt".toList, .spot⟩ ∧
+    (mapOf p subs).find "@trade|BTCUSDT".toList = some 1 ∧
+    keyAt subs 0 = keyAt subs 1 := by
+  decide
+
+/-- swapping base and quote in the un-keyed formatter would subscribe another market (what the hand
+mutant `C13_unkeyed_market_*` does to `binance/market.rs:21`): the venue's `BTCUSDT` is then rejected -/
+example :
+    let p : Pair := ⟨.binanceSpot, .publicTrades⟩
+    let msg : Msg := ⟨[], "BTCUSDT".toList, 0, [⟨1, 2, .buy, 5⟩]⟩
+    (match transformU p (mapOfU p [⟨"btc".toList, "usdt".toList, .spot⟩]) msg with
+      | .events evs => evs.map (·.key.base) | .unidentifiable _ => []) = ["btc".toList] ∧
+    (match transformU p (mapOfU p [⟨"usdt".toList, "btc".toList, .spot⟩]) msg with
+      | .events evs => evs.map (·.key.base) | .unidentifiable _ => []) = [] := by
+  decide
+
 end BarterModel.Props.C13
